@@ -25,6 +25,20 @@ def expr_src(e, root):
         return "%s.m%d" % (e[1], e[2])
     if k == "f":
         return root + "".join("[%d]" % p[1] if isinstance(p, list) else "." + p for p in e[1])
+    if k == "listref":
+        return expr_src(["f", e[1]], root)
+    if k == "it":
+        return "_it"
+    if k == "idxvar":
+        return "_i"
+    if k == "sub":       # list[i + off] inside a foreach over that list
+        return "%s[_i + %d]" % (expr_src(["f", e[1]], root), e[2]) if e[2] else "%s[_i]" % expr_src(["f", e[1]], root)
+    if k == "sum":
+        return expr_src(["f", e[1]], root) + ".sum"
+    if k == "size":
+        return expr_src(["f", e[1]], root) + ".size"
+    if k == "inlist":
+        return "%s.inside(%s)" % (expr_src(e[1], root), expr_src(["f", e[2]], root))
     if k == "bin":
         return "(%s %s %s)" % (expr_src(e[2], root), BINOPS[e[1]], expr_src(e[3], root))
     if k == "not":
@@ -77,6 +91,9 @@ def stmts_src(stmts, root, ind):
             for it, w in s[2]:
                 ws.append("vsc.weight(%s, %d)" % (("(%d, %d)" % tuple(it)) if isinstance(it, list) else "%d" % it, w))
             out.append(pad + "vsc.dist(%s, [%s])" % (expr_src(s[1], root), ", ".join(ws)))
+        elif k == "foreach":
+            out.append(pad + "with vsc.foreach(%s, idx=True, it=True) as (_i, _it):" % expr_src(["f", s[1]], root))
+            out += stmts_src(s[2], root, ind + 1)
         elif k == "dyn":
             out.append(pad + "%s.%s()" % (root, s[1]))
         else:
@@ -180,6 +197,8 @@ class Env(object):
         return base + c["fields"]
 
     def field_decl_of(self, obj, name):
+        if not isinstance(name, str):
+            return None
         cname = type(obj).__name__
         if cname in self.classes:
             for f in self.all_fields(cname):
@@ -187,35 +206,71 @@ class Env(object):
                     return f
         return None
 
-    # leaves in declaration order: (path, decl)
-    def leaves(self, cname, prefix=()):
+    # leaves in declaration order: (path, decl); a scalar list contributes its elements then its size
+    def leaves(self, obj, prefix=()):
         out = []
-        for f in self.all_fields(cname):
+        for f in self.all_fields(type(obj).__name__):
             p = prefix + (f["name"],)
             if f["kind"] in ("scalar", "enum"):
                 out.append((p, f))
             elif f["kind"] == "obj":
-                out += self.leaves(f["cls"], p)
+                with vsc.raw_mode():
+                    sub = getattr(obj, f["name"])
+                out += self.leaves(sub, p)
             elif f["kind"] == "list":
-                out.append((p, f))
+                with vsc.raw_mode():
+                    lst = getattr(obj, f["name"])
+                n = len(lst.get_model().field_l)
+                for i in range(n):
+                    out.append((p + (i,), dict(f["elem"], rand=bool(f.get("rand")), _list=True)))
+                out.append((p + ("size",), {"kind": "scalar", "w": 32, "sg": False, "rand": bool(f.get("randsz")), "_size": True}))
         return out
 
+    def leaf_model(self, obj, path):
+        with vsc.raw_mode():
+            for k, n in enumerate(path):
+                if isinstance(n, int):
+                    return obj.get_model().field_l[n]
+                if n == "size" and hasattr(obj, "get_model") and hasattr(obj.get_model(), "size") and k == len(path) - 1:
+                    return obj.get_model().size
+                obj = getattr(obj, n)
+            return obj.get_model()
+
     def read_leaf(self, obj, path, f):
-        v = self.resolve(obj, list(path))
+        m = self.leaf_model(obj, path)
+        v = int(m.get_val())
         if f["kind"] == "enum":
-            return list(self.ns[f["enum"]]).index(v) if not isinstance(v, int) or isinstance(v, IntEnum) else int(v)
-        if f["kind"] == "list":
-            el = f["elem"]
-            if el["kind"] == "scalar":
-                return [int(x) for x in v]
-            if el["kind"] == "enum":
-                return [list(self.ns[el["enum"]]).index(x) for x in v]
-            return [self.snapshot_obj(x) for x in v]
-        return int(v)
+            vals = self.sc["enums"][f["enum"]]
+            return vals.index(v) if v in vals else -1
+        if f.get("_list"):
+            # element assignment stores the unsigned pattern; the public read re-interprets it by the element type
+            w = f["w"]
+            v &= (1 << w) - 1
+            if f["sg"] and v >= (1 << (w - 1)):
+                v -= 1 << w
+        return v
 
     def snapshot_obj(self, obj):
-        cname = type(obj).__name__
-        return [self.read_leaf(obj, p, f) for p, f in self.leaves(cname)]
+        return [self.read_leaf(obj, p, f) for p, f in self.leaves(obj)]
+
+    def list_views(self, obj, prefix=()):
+        """what every list exposes: len(), size attribute, iteration, indexing"""
+        out = {}
+        for f in self.all_fields(type(obj).__name__):
+            if f["kind"] == "list" and f["elem"]["kind"] == "scalar":
+                lst = getattr(obj, f["name"])
+                n = len(lst)
+                try:
+                    idx = [int(lst[i]) for i in range(n)]
+                except Exception as e:  # noqa
+                    idx = "exc:" + type(e).__name__
+                out[".".join(prefix + (f["name"],))] = {"len": n, "size": int(lst.size), "iter": [int(x) for x in lst], "index": idx,
+                                                        "model_len": len(lst.get_model().field_l)}
+            elif f["kind"] == "obj":
+                with vsc.raw_mode():
+                    sub = getattr(obj, f["name"])
+                out.update(self.list_views(sub, prefix + (f["name"],)))
+        return out
 
     def number_objects(self, obj, counter=None):
         """pre-order numbering of the composite objects below obj (same order as solvegen.Lits.world)"""
@@ -234,13 +289,8 @@ class Env(object):
         """map the scalar/enum field models of obj (flat order of leaves) to harness ids"""
         self.number_objects(obj)
         btor_proxy.FIELD_ID.clear()
-        i = 0
-        for p, f in self.leaves(type(obj).__name__):
-            if f["kind"] in ("scalar", "enum"):
-                with vsc.raw_mode():
-                    fo = self.resolve(obj, list(p))
-                btor_proxy.FIELD_ID[id(fo.get_model())] = i
-            i += 1
+        for i, (p, f) in enumerate(self.leaves(obj)):
+            btor_proxy.FIELD_ID[id(self.leaf_model(obj, p))] = i
 
     def global_state(self):
         from vsc.impl import ctor, expr_mode as em
@@ -262,6 +312,15 @@ class Env(object):
         if k == "set":
             self.assign(o, op["path"], op["value"])
             return {"values": self.snapshot_obj(o)}
+        if k == "l_append":
+            self.resolve(o, op["path"]).append(op["value"])
+            return {"values": self.snapshot_obj(o), "lists": self.list_views(o)}
+        if k == "l_clear":
+            self.resolve(o, op["path"]).clear()
+            return {"values": self.snapshot_obj(o), "lists": self.list_views(o)}
+        if k == "l_set":
+            self.resolve(o, op["path"])[op["index"]] = op["value"]
+            return {"values": self.snapshot_obj(o), "lists": self.list_views(o)}
         if k == "rand_mode":
             with vsc.raw_mode():
                 fo = self.resolve(o, op["path"])
@@ -279,6 +338,7 @@ class Env(object):
             btor_proxy.DOMAINS.clear()
             del self.hook_log[:]
             before = self.snapshot_obj(o)
+            leaves_before = [list(p) for p, _ in self.leaves(o)]
             out = "ok"
             err = None
             try:
@@ -296,7 +356,9 @@ class Env(object):
                 err = (str(e)[:200] + " | " + traceback.format_exc()[-700:])
             return {"outcome": out, "err": err, "before": before, "values": self.snapshot_obj(o),
                     "log": btor_proxy.take_log(), "hooks": list(self.hook_log), "state": self.global_state(),
-                    "domains": {str(k): v for k, v in btor_proxy.DOMAINS.items()}}
+                    "domains": {str(k): v for k, v in btor_proxy.DOMAINS.items()},
+                    "leaves_before": leaves_before, "leaves_after": [list(p) for p, _ in self.leaves(o)],
+                    "lists": self.list_views(o)}
         raise Exception("unknown op " + k)
 
 
